@@ -17,8 +17,13 @@ SPACE = ([9, 10, 11, 12, 13, 28, 29, 30, 31, 32, 133, 160, 5760] + list(range(81
 LUHN_SRC = '''def luhn10_check(number):
     """Return True if the number passes the Luhn checksum algorithm."""
 
-    if number < 0:
+    try:
+        if number < 0 or number != int(number):
+            return False
+    except (ArithmeticError, ValueError):
+        # NaN or an infinity (float or Decimal): not a string of digits
         return False
+    number = int(number)
 
     sum = 0
     while number:
